@@ -30,8 +30,8 @@ REPLICAS = {
     "A": [],
     "As": ["-mbmi2", "-madx", "-DNDEBUG"],   # the "release" build: static BMI2/ADX selection and NDEBUG (the unchanged tree has no assert, so this changes nothing there)
     "B": ["-DDISABLE_ASM"],
-    "C": ["-DDISABLE_ASM", "-U__SIZEOF_INT128__", "-funsigned-char"],   # 32-bit words as a Cortex-M0+ build has them, and plain char unsigned as in the ARM ABIs (on x86-64 it is signed: replicas A, As, B, G)
-    "D": ["@plain", "-DDISABLE_ASM", "-O0"],   # the debug build: portable code without optimisation (nothing a compiler's use of __restrict, of undefined evaluation order or of dead stores could mask); plain flavour only
+    "C": ["-DDISABLE_ASM", "-U__SIZEOF_INT128__", "-funsigned-char", "-Os", "-fno-builtin", "-fshort-enums"],   # what the Makefile's Cortex-M0+ section compiles, as far as an x86-64 host can: 32-bit words, -Os -fno-builtin -fshort-enums, plain char unsigned as in the ARM ABIs
+    "D": ["@plain", "-DDISABLE_ASM", "-U__SIZEOF_INT128__", "-O0"],   # the debug build: portable code without optimisation (nothing a compiler's use of __restrict, of undefined evaluation order or of dead stores could mask); plain flavour only
     "G": ["@g++"],          # the same sources through the other compiler the Makefile names (g++, asm back end); plain flavour only
 }
 FLAVOURS = {
